@@ -477,6 +477,21 @@ class CallMixin:
         return self.truth(v)
 
     def check_spec(self, expr, name, kind):
+        self.spec_mode = getattr(self, 'spec_mode', 0) + 1
+        try:
+            try:
+                t = self.truth(self.ev(self.parse_spec(expr)))
+            except PyRaise as pr:
+                # the specification calls real code that raises on this path: the postcondition
+                # fails here unless the path is infeasible - which the solver decides
+                self.emit(name, kind, z3.BoolVal(False),
+                          {'expr': (expr if isinstance(expr, str) else ast.unparse(expr)) +
+                           f'   [evaluating it raises {self.exc_class(pr.exc)} at {pr.site}]'})
+                raise PathEnd()
+        finally:
+            self.spec_mode -= 1
+        self.emit(name, kind, t, {'expr': expr if isinstance(expr, str) else ast.unparse(expr)})
+        return
         t = self.spec_truth(expr)
         self.emit(name, kind, t, {'expr': expr if isinstance(expr, str) else ast.unparse(expr)})
 
